@@ -36,7 +36,7 @@ REQUIRED_THEOREMS = ['english_value', 'english_cardinal', 'english_ordinal', 'en
                      'portuguese_e_mil_witness', 'scale_words_in_maps',
                      'french_cardinal_partial', 'french_un_million_witness', 'french_cents_millions_witness',
                      'italian_cardinal_partial', 'italian_tre_milioni_witness', 'scale_words_in_maps_fr_it',
-                     'german_ordinal_sub1000', 'dutch_ordinal_sub1000', 'portuguese_ordinal_sub1000', 'french_ordinal_sub1000',
+                     'german_ordinal_sub1000', 'german_ordinal_sub1e6', 'dutch_ordinal_sub1000', 'portuguese_ordinal_sub1000', 'french_ordinal_sub1000',
                      'spanish_ordinal_sub1000_partial', 'spanish_decimoseptimo_witness', 'italian_ordinal_sub1000_partial',
                      'italian_ordinal_witness']
 RULE = ('unit: __get_int_value on every English numeral of the pipeline set + seeded token lists over each '
